@@ -25,7 +25,7 @@ def main():
     dst = os.path.join(ROOT, "seeded", sid)
     os.makedirs(dst, exist_ok=True)
     for f in ("patch.diff", "demo.py", "notes.md"):
-        if os.path.exists(os.path.join(src, f)):
+        if os.path.exists(os.path.join(src, f)) and os.path.abspath(src) != os.path.abspath(dst):
             shutil.copy(os.path.join(src, f), os.path.join(dst, f))
     wt = "/tmp/confirm_%d" % os.getpid()
     sh("git -C /repo worktree add --detach %s HEAD" % wt)
